@@ -2949,6 +2949,9 @@ def _apply_sifting(
         ) -> None:
     """Apply Rudell's sifting algorithm."""
     bdd.collect_garbage()
+    # nothing to sift ?
+    if len(bdd.vars) < 2:
+        return
     n = len(bdd)
     # using `set` injects some randomness
     levels = bdd._levels()
